@@ -185,11 +185,18 @@ func importResource(source map[string]any, target map[string]any, key string) er
 	if from != nil {
 		var to map[string]any
 		if v, ok := target[key]; ok {
-			to = v.(map[string]any)
+			to, ok = v.(map[string]any)
+			if !ok {
+				return fmt.Errorf("%s must be a mapping", key)
+			}
 		} else {
 			to = map[string]any{}
 		}
-		for name, a := range from.(map[string]any) {
+		imported, ok := from.(map[string]any)
+		if !ok {
+			return fmt.Errorf("imported %s must be a mapping", key)
+		}
+		for name, a := range imported {
 			if conflict, ok := to[name]; ok {
 				if reflect.DeepEqual(a, conflict) {
 					continue
